@@ -30,13 +30,10 @@ IsEvent(name) == l <= TraceLen /\ Ev.ev = name /\ l' = l + 1
 
 Chains == 1..NC
 
-ObsG(o) == [num |-> o.num, ext |-> o.ext, has |-> o.has, dl |-> o.dl, ml |-> o.ml]
+ObsG(o) == [num |-> o.num, ext |-> o.ext, has |-> o.has, dl |-> o.dl, ml |-> o.ml,
+            era |-> o.era, hera |-> o.hera, late |-> o.late, order |-> o.order]
 
-InitG == [ num |-> [c \in Chains |-> 1],
-           ext |-> [c \in Chains |-> FRef((c % NC) + 1, 0)],
-           has |-> [c \in Chains |-> FALSE],
-           dl  |-> [c \in Chains |-> [x \in Chains |-> 0]],
-           ml  |-> [c \in Chains |-> [x \in Chains |-> 0]] ]
+InitG == InitGraph(NC, [i \in 1..NC |-> i])
 
 Mirror(o) == o.mnum = o.num /\ o.mext = o.ext /\ o.mself = o.self
 
@@ -44,7 +41,7 @@ Init == l = 1 /\ G = InitG /\ P = <<>>
 
 Reset ==
     /\ IsEvent("Reset")
-    /\ Mode = "full" => ObsG(Ev.obs) = InitG /\ Mirror(Ev.obs)
+    /\ Mode = "full" => ObsG(Ev.obs) = InitGraph(NC, Ev.obs.order) /\ Mirror(Ev.obs)
     /\ G' = ObsG(Ev.obs) /\ P' = Ev.obs
 
 \* the new head commits to the round just closed: durable, in memory, and the closed round's record exists
@@ -64,7 +61,7 @@ Op ==
            THEN /\ Ev.res = r.res /\ Ev.dummy = r.dummy /\ G2 = r.G
                 /\ Mirror(obs)
                 /\ (o.op = "Start" /\ Ev.res = "ok") => SelfOK(obs, c, G.num[c])
-           ELSE \/ o.op = "Add"
+           ELSE \/ o.op \in {"Add", "Jump"}
                 \/ /\ Ev.res # "ok"
                    /\ obs = P
                 \/ /\ Ev.res = "ok"
